@@ -62,15 +62,25 @@ def param_spec(draw, n, classes=ALL_CLASSES, depth=1):
         p.update(k=k, R=draw(vec(n * k)),
                  inner=draw(st.one_of(st.none(), param_spec(k, ["PositiveScaledIdentity", "PositiveDiagonal", "DensePD"], 0))))
     elif cls == "SoftAbs":
-        mode = draw(st.sampled_from(["distinct", "distinct", "repeated", "close", "all-equal"]))
+        mode = draw(st.sampled_from(["distinct", "distinct", "repeated", "close", "all-equal", "zero", "tiny", "small"]))
         lam = draw(st.lists(mtree.nz, min_size=n, max_size=n))
+        coeff = draw(unit(0.3, 3.0))
+        # the problem has one length scale, 1 / softabs_coeff: eigenvalues and coefficient are moved together over 14
+        # orders of magnitude (a Hessian in other units), and single eigenvalues to 0, 1e-9 and 1e-3 of that scale
+        scale = draw(st.sampled_from([1.0, 1.0, 1.0, 1e-7, 1e-3, 1e3, 1e7]))
         if n >= 2 and mode == "repeated":
             lam[1] = lam[0]
         elif n >= 2 and mode == "close":
             lam[1] = lam[0] * (1 + 1e-9)
         elif mode == "all-equal":
             lam = [lam[0]] * n
-        p.update(G=draw(vec(n * n)), lam=lam, coeff=draw(unit(0.3, 3.0)), mode=mode,
+        elif mode == "zero":
+            lam[0] = 0.0
+        elif mode == "tiny":
+            lam[0] = 1e-9 / coeff
+        elif mode == "small":
+            lam[0] = 1e-3 / coeff
+        p.update(G=draw(vec(n * n)), lam=[x / scale for x in lam], coeff=coeff * scale, mode=mode, scale=scale,
                  rotate=draw(st.booleans()))
     elif cls == "BlockPD":
         n1 = draw(st.integers(1, n - 1))
@@ -182,6 +192,7 @@ def family(p):
         S = (V * A(p["lam"])) @ V.T
         f.theta0 = 0.5 * (S + S.T)
         f.sym = True
+        f.dscale = 1.0 / p.get("scale", 1.0)     # directions (and finite-difference steps) in the units of the eigenvalues
         coeff = p["coeff"]
         f.dense = lambda t: softabs_dense(0.5 * (t + t.T), coeff)
         f.make = lambda t: mm.SoftAbsRegularizedPositiveDefiniteMatrix(np.array(t), coeff)
@@ -248,6 +259,7 @@ def direction(f, data, pos=0):
         D = D * f.mask
     if getattr(f, "sym", False):
         D = 0.5 * (D + D.T)
+    D = D * getattr(f, "dscale", 1.0)
     return D, pos + size
 
 
